@@ -14,7 +14,9 @@ I16 = ("int", 2, True)
 BOOL = ("bool",)
 CHAR = ("char",)
 FN2 = ("fn", (I32, I32), I32)       # (x: i32, y: i32) -> i32
-INTS = [I32, I32, I32, U8, I64, U32, I16]
+I8 = ("int", 1, True)
+U64 = ("int", 8, False)
+INTS = [I32, I32, I32, U8, I64, U32, I16, I8, ("int", 2, False), U64]
 REC_P = ("rec", "P", (("a", I32), ("b", U8)))
 REC_Q = ("rec", "Q", (("p", REC_P), ("k", I64), ("f", BOOL)))
 OPT_I32 = ("opt", I32)
